@@ -31,6 +31,18 @@ def gen(rng, tier):
     if rng.random() < 0.5:
         focus["density"] = 0.5
     spec = C.gen_edit(rng, C.maybe_prelude_backward(rng, C.maybe_dep_edit(rng, C.maybe_history(rng, C.forward_spec(rng, tier, focus), 0.3), 0.3), 0.1))
+    if rng.random() < 0.08 and not spec.get("edit"):
+        spec["cfg"]["unit_time"] = rng.choice([2, 3])  # the clock advances by 2 or 3 per step; the absence list names times
+    if rng.random() < 0.1 and not spec.get("edit"):
+        m_ = spec["model"]
+        n0_ = len(m_["tasks"])
+        i_ = G.append_task(m_, {"id": "tsub", "work": rng.choice([1.0, 2.0, 3.0]), "rate": rng.choice([0.5, 1.0]), "sub": {"file": None, "unit_s": 60}}, rng)
+        for a_ in range(n0_):
+            if rng.random() < 0.3:
+                m_["deps"].append([a_, i_, rng.choice(spec["profile"]["kinds"])])
+        spec["ranks"]["tsub"] = max(spec["ranks"].values()) + 1
+        if spec.get("history") is not None and spec.get("prelude_backward") is None and not spec["history"].get("org_edit") and rng.random() < 0.6:
+            spec["history"].update(reload=True, state=False, log=rng.random() < 0.5, k=rng.randint(1, 8))
     if rng.random() < 0.1 and not (spec.get("history") or {}).get("reload") and spec.get("prelude_backward") is None:
         # a predecessor that is not an element of the simulated workflow (a task of another project): its state is what it is
         n = len(spec["model"]["tasks"])
@@ -69,8 +81,9 @@ def check_trace(res, tr):
     off = getattr(tr, "log_offset", 0)
     if hist is not None and not hist["state"] and getattr(tr, "first_snap", None) is not None:
         # continuation: what the first call left is the previous state (it must not move backward) and counts as history
+        left = getattr(tr, "pre_reload_snap", None) or tr.first_snap  # (a state that changes on its way through a file moved, too)
         for tid in st.order:
-            ps = tr.first_snap["T"][tid][0]
+            ps = left["T"][tid][0] if tid in left["T"] else tr.first_snap["T"][tid][0]
             prev[tid] = ps
             if ps in (WORKING, FINISHED, 3):
                 started[tid] = True
